@@ -153,7 +153,12 @@ class _Handle:
             sz = self.fs.size_of[key]
         else:
             sz = self.fs._next_written_size()
-        self.node.size = sz
+        # what stat() will report: the uncompressed size for a plain file, an unrelated
+        # (scenario-given) size for a compressed one
+        if key != self.path and key in self.fs.disk_size_of:
+            self.node.size = self.fs.disk_size_of[key]
+        else:
+            self.node.size = sz
         return sz
 
     def __iter__(self):
@@ -175,6 +180,8 @@ class ModelFS:
         self.size_of = {}             # logical Manifest path -> uncompressed size
         self.sysroot = None           # optional node standing for '/'
         self.dump_args = []           # (path, sign_openpgp as passed, keyid) per dump
+        self.render = False           # run the real dump() (text rendering) in model runs
+        self.disk_size_of = {}        # logical Manifest path -> size on disk when compressed
         self._wtok = 0
         self.walk_fuel = walk_fuel
         self.ncalls = 0
@@ -626,7 +633,7 @@ def _m_dump(mf, f, sign_openpgp=None, openpgp_keyid=None, openpgp_env=None, sort
     f.fs.dump_args.append((f.path, sign_openpgp, openpgp_keyid))
     if sign_openpgp is None:
         sign_openpgp = mf.openpgp_signed
-    if RENDER[0]:
+    if RENDER[0] or f.fs.render:
         # the real dump does the sorting and renders every entry (to_list/join)
         _REAL_DUMP(mf, f, sign_openpgp=False, sort=sort)
     elif sort:
